@@ -6,7 +6,7 @@ import (
 	clipper "github.com/bolom009/go-clipper2"
 )
 
-// The C18 harness bodies: a 16-call alphabet over shared, read-only inputs and
+// The C18 harness bodies: an 18-call alphabet over shared, read-only inputs and
 // distinct engine objects. The same bodies run (a) under the cooperative
 // scheduler of the schedule explorer and (b) free-running under the race detector.
 
@@ -61,6 +61,17 @@ var c18Calls = []struct {
 		co.Execute64(3, &s1)
 		co.Execute64(-2, &s2)
 		return fmt.Sprint(s1, s2)
+	}},
+	// touching figures: a hole with two corners on its outer polygon's edges sends the tree builder's containment
+	// test down its rarely taken tie-break path
+	{"BooleanOpPolyTree64(Difference, touching triangle A)", func() string {
+		return canonTree(clipper.BooleanOpPolyTree64(clipper.Difference, Paths{{{0, 0}, {60, 0}, {0, 60}}}, Paths{{{20, 0}, {15, 15}, {0, 20}}}, clipper.NonZero).PolyPathBase)
+	}},
+	{"BooleanOpPolyTree64(Difference, touching triangle B)+Path2ContainsPath1", func() string {
+		t := clipper.BooleanOpPolyTree64(clipper.Difference, Paths{{{0, 0}, {80, 0}, {80, 80}, {0, 80}}}, Paths{{{80, 30}, {50, 40}, {80, 50}}, {{30, 0}, {40, 25}, {50, 0}}}, clipper.EvenOdd)
+		in := clipper.Path2ContainsPath1(Path{{X: 20, Y: 0}, {X: 15, Y: 15}, {X: 0, Y: 20}}, Path{{X: 0, Y: 0}, {X: 60, Y: 0}, {X: 0, Y: 60}})
+		out := clipper.Path2ContainsPath1(Path{{X: 20, Y: 0}, {X: 40, Y: 0}, {X: 30, Y: -20}}, Path{{X: 0, Y: 0}, {X: 60, Y: 0}, {X: 0, Y: 60}})
+		return fmt.Sprint(canonTree(t.PolyPathBase), in, out)
 	}},
 	{"ClipperOffset(delta callback 3, Round, arc .25)", func() string { return c18Callback(3, 0.25) }},
 	{"ClipperOffset(delta callback 7, Round, arc .5)", func() string { return c18Callback(7, 0.5) }},
